@@ -16,7 +16,13 @@ def shards(spec):
         for (mname, _) in contexts.CTXA_MACROS:
             for sh in words.prefix_shards(SIGMA_X, spec['A'], 1):
                 out.append(('A', mname, sh))
+    if spec.get('Z') is not None:
+        out += [('Z', 'A0', sh) for sh in words.prefix_shards(SIGMA_Z, spec['Z'], 1)]
     return out
+
+
+# custom context WITHOUT unknown-macro / unknown-environment fallback: unknown names in every position
+SIGMA_Z = ['a', ' ', '{', '}', '[', ']', '\\mm', '\\mo', '\\zz', '\\begin{zz}', '\\end{zz}', '\\begin{ea}', '\\end{ea}', '$']
 
 
 def iter_shard(spec, shard):
@@ -28,6 +34,9 @@ def iter_shard(spec, shard):
     elif space == 'L':
         for w in words.iter_shard(words.SIGMA_L, spec['L'], sh):
             yield words.render(words.SIGMA_L, w), 'D'
+    elif space == 'Z':
+        for w in words.iter_shard(SIGMA_Z, spec['Z'], sh):
+            yield words.render(SIGMA_Z, w), 'A0'
     elif space == 'A':
         head = '\\' + x
         for w in words.iter_shard(SIGMA_X, spec['A'], sh):
@@ -44,4 +53,7 @@ def describe(spec):
     if spec.get('A') is not None:
         parts.append('for each of the %d macros of the custom all-argument-types context, the macro followed by '
                      'all words of length <= %d over the 15 argument characters' % (len(contexts.CTXA_MACROS), spec['A']))
+    if spec.get('Z') is not None:
+        parts.append('all words of length <= %d over 14 lexemes incl. unknown macro/environment names under the custom context '
+                     'without unknown-macro fallback' % spec['Z'])
     return '; '.join(parts)
